@@ -92,7 +92,8 @@ impl NetHandle {
     pub fn inject(&self, to: (Ep, usize), bytes: Vec<u8>) {
         let mut c = self.0.lock().unwrap();
         let d = Datagram { t: tokio::time::Instant::now().duration_since(c.start), from: (Ep::Tx, usize::MAX), to, bytes: Arc::new(bytes) };
-        if c.dead.contains(&to.1) {
+        if c.dead.contains(&to.1) || d.bytes.len() > alpenglow::network::MTU_BYTES {
+            c.dropped += 1;
             return;
         }
         if let Some(h) = c.on_deliver.as_mut() {
@@ -139,7 +140,9 @@ impl NetHandle {
 
     fn deliver(&self, mut d: Datagram) {
         let mut c = self.0.lock().unwrap();
-        if c.dead.contains(&d.to.1) {
+        // the real networks receive into MTU-sized buffers: a longer datagram arrives truncated
+        // and fails to decode, i.e. it is lost
+        if c.dead.contains(&d.to.1) || d.bytes.len() > alpenglow::network::MTU_BYTES {
             c.dropped += 1;
             return;
         }
